@@ -415,6 +415,8 @@ def run_job(job):
     VT.drain()
     try:
         p0 = PARSER.parse(text, schedule=False)
+    except JobTimeout:
+        raise
     except BaseException as ex:  # noqa: BLE001 - classify everything
         return [{"id": job["id"], "sc": 0, "status": "rejected", "error": type(ex).__name__ + ": " + str(ex)[:300],
                  "events": [], "nevents": len(VT.drain())}]
@@ -427,6 +429,8 @@ def run_job(job):
         for sc in want:
             if sc < nsc:
                 abstracts[sc] = extract(p0, sc) if sc == want[0] else None
+    except JobTimeout:
+        raise
     except BaseException as ex:  # noqa: BLE001
         return [{"id": job["id"], "sc": 0, "status": "crash", "phase": "extract",
                  "error": traceback.format_exc()[-1500:], "events": []}]
@@ -436,6 +440,8 @@ def run_job(job):
     p = None
     try:
         p = PARSER.parse(text)
+    except JobTimeout:
+        raise
     except BaseException:  # noqa: BLE001
         status = "crash"
         err = traceback.format_exc()[-1500:]
@@ -468,18 +474,39 @@ def run_job(job):
     return out
 
 
+class JobTimeout(BaseException):
+    pass
+
+
+def _alarm(signum, frame):
+    raise JobTimeout()
+
+
 def main(jobs_path, out_path):
+    import signal
+    import time
+    signal.signal(signal.SIGALRM, _alarm)
     with open(jobs_path) as f, open(out_path, "w") as out:
         for line in f:
             line = line.strip()
             if not line:
                 continue
             job = json.loads(line)
+            limit = float(job.get("limit", 0) or 0)
+            t0 = time.time()
             try:
+                if limit:
+                    signal.setitimer(signal.ITIMER_REAL, limit)
                 recs = run_job(job)
+            except JobTimeout:
+                recs = [{"id": job.get("id"), "sc": 0, "status": "hang", "limit": limit, "events": [], "nevents": len(VT.drain())}]
             except BaseException:  # noqa: BLE001
                 recs = [{"id": job.get("id"), "sc": 0, "status": "crash", "phase": "runner",
                          "error": traceback.format_exc()[-1500:], "events": []}]
+            finally:
+                signal.setitimer(signal.ITIMER_REAL, 0)
+            for r in recs:
+                r["wall"] = round(time.time() - t0, 3)
             for r in recs:
                 out.write(json.dumps(r) + "\n")
             out.flush()
